@@ -93,6 +93,13 @@ func VerifC16Page() {
 	fs, c, _ := c16Dir()
 	f, err := fs.Open("d")
 	verifAssert(err == nil, "Open(d) failed")
+	if c < len(c16Names) && verifChoice("late-child", 2) == 1 {
+		// a child created after the handle was opened but before its first read is listed (the handle reads the
+		// directory when it is first asked, like os.File)
+		verifTag("late-child", "yes")
+		verifAssert(hackpadfs.WriteFullFile(fs, "d/"+c16Names[c], []byte{9}, 0644) == nil, "WriteFullFile late child")
+		c++
+	}
 	seen := make([]bool, c)
 	nseen := 0
 	K := verifParam("K")
